@@ -202,6 +202,15 @@ namespace
     {
         dirty_frame<1100>(seed); dirty_frame<2200>(seed + 1); dirty_frame<4400>(seed + 2); dirty_frame<4600>(seed + 3); dirty_frame<9000>(seed + 4);
     }
+    // ASan hands out fake frames of one size class round-robin from a ring (at most 1 MiB per class), not last-freed-first:
+    // once per simulated installation (= per process) every slot of the rings a PATH_MAX buffer can fall into is dirtied
+    // (done in the worker before it forks the installations of a run - the children inherit the image -, with the same
+    // bytes in every slot, so that it does not matter which slot of the ring the callee is handed)
+    inline void dirty_frame_rings()
+    {
+        for (int i = 0; i < 132; ++i) dirty_frame<4400>(0x5eed);      // 1 MiB / 8 KiB = 128 slots
+        for (int i = 0; i < 68; ++i) dirty_frame<9000>(0x5eed);       // 1 MiB / 16 KiB = 64 slots
+    }
 
     const char* len_class(size_t len)
     {
@@ -216,6 +225,7 @@ namespace
     // the steps [first, last) of a plan all concern ONE simulated installation (same target): they run in one process
     void run_group(const Plan& plan, Run& run, size_t first, size_t last)
     {
+        (void)first;
         for (size_t si = first; si < last; ++si)
         {
             const Step& st = plan.steps[si];
@@ -356,6 +366,9 @@ namespace
     void write_all(int fd, const std::string& s) { size_t o = 0; while (o < s.size()) { ssize_t w = ::write(fd, s.data() + o, s.size() - o); if (w <= 0) break; o += static_cast<size_t>(w); } }
     void exec_plan(const Plan& plan, Run& run)
     {
+#if defined(__SANITIZE_ADDRESS__)
+        dirty_frame_rings();
+#endif
         size_t first = 0;
         while (first < plan.steps.size())
         {
